@@ -186,6 +186,10 @@ func (i *interpreter) initPackage(pkg *ssa.Package) {
 		}
 	}
 	fr := &frame{i: i, fn: fn, tolerant: true, g: i.run.sched.cur}
+	// initialisers run at the (concrete) start-of-run instant, whatever the harness has set since
+	savedNow := i.run.now
+	i.run.now = initialNow
+	defer func() { i.run.now = savedNow }()
 	saved := i.run.steps
 	func() {
 		defer func() {
@@ -543,6 +547,8 @@ type nativeFunc struct {
 
 const maxDepth = 400
 
+const initialNow = int64(1700000000) * 1e9
+
 func callSSA(i *interpreter, caller *frame, callpos token.Pos, fn *ssa.Function, args []value, env []value) value {
 	fr := &frame{i: i, caller: caller, fn: fn}
 	if caller != nil {
@@ -640,6 +646,7 @@ func runFrame(fr *frame) {
 		for _, instr := range nonPhis {
 			fr.curInstr = instr
 			r := fr.i.run
+			r.curFr = fr
 			r.steps++
 			if r.steps > r.maxSteps {
 				r.inconclusive = fmt.Sprintf("unwinding/step limit %d exceeded at %s", r.maxSteps, fr.pos())
